@@ -4,6 +4,7 @@ projects the real object graph to the abstract state (children, parent).
 
 Nothing here decides the property: it only executes and serialises.'''
 
+import gc
 import sys
 
 _FACT = None
@@ -197,6 +198,7 @@ def run_group(job):
     [None, None, op, -1, reason, None, None, how].'''
     kinds, target, path, ops = job
     sys.setrecursionlimit(_RECURSION_LIMIT)
+    gc.enable()                 # node trees are cyclic (parent <-> children)
     out = []
     how_cached = None
     for op in ops:
@@ -224,6 +226,7 @@ def run_history(job):
     history is cut by the caller at the first failing verdict.'''
     kinds, init, ops = job
     sys.setrecursionlimit(_RECURSION_LIMIT)
+    gc.enable()
     world, how = reach(kinds, init, None)
     if world is None:
         return [[None, None, ops[0] if ops else None, -1, how, None, None, how]]
